@@ -98,9 +98,17 @@ class Summaries:
             sty = f.ty if isinstance(f, (Agg, SymV)) and f.ty is not None else {"k": "closure", "def": getattr(f, "name", None)}
             r = {"self_ty": sty, "args": [], "trait": "core::ops::function::FnOnce"}
             res = ex.call_fn_value(st, ctx.fr, r, [f, Agg("tuple", None, None, args)], None, ctx.span)
-        if len(res) != 1:
-            raise ex_undecided("function value forks")
-        return res[0][1]
+        if not res:
+            st.dead = True
+            return Undef
+        if len(res) == 1:
+            s2, v = res[0]
+        else:
+            # several return paths of the closure (e.g. a short-circuit `&&` in a predicate): merged if-then-else
+            s2, v = ex.merge_states([s for s, _ in res], [x for _, x in res])
+        if s2 is not st:
+            st.mem, st.facts, st.trace = s2.mem, s2.facts, s2.trace
+        return v
 
     @staticmethod
     def deref_arg(ctx, st, a):
@@ -668,7 +676,10 @@ class Summaries:
             if name.endswith("_mut"):
                 cur = ex.read(st, p.root, p.path, p.pty)
                 ex.write(st, p.root, p.path, ex.havoc_like(cur, "chunks"), p.pty)
-        return [(st, Agg("adt", "core::slice::" + name, 0, list(ctx.args), ctx.dest_ty))]
+        fields = list(ctx.args)
+        if name.startswith("chunks_exact"):
+            fields.append(IntV(ex.pbits, False, p=ZERO))       # chunks handed out so far
+        return [(st, Agg("adt", "core::slice::" + name, 0, fields, ctx.dest_ty))]
 
     # ------------------------------------------------------------------ generic traits
     def s_clone(self, ctx, st):
@@ -749,6 +760,17 @@ class Summaries:
             args[1] = Agg("adt", "core::array::into_iter", 0, [args[1]], None)
         return [(st, Agg("adt", "core::iter::" + name, 0, args, ctx.dest_ty))]
 
+    def s_range_contains(self, ctx, st):
+        """core::ops::range::Range::contains | core::ops::range::RangeInclusive::contains | core::ops::range::RangeBounds::contains"""
+        r = self.deref_arg(ctx, st, ctx.args[0])
+        x = self.deref_arg(ctx, st, ctx.args[1])
+        if not (isinstance(r, Agg) and (r.name or "").startswith("core::ops::range::Range") and len(r.fields) >= 2
+                and isinstance(r.fields[0], IntV) and isinstance(r.fields[1], IntV) and isinstance(x, IntV)):
+            return None
+        lo, hi, px = r.fields[0].poly(), r.fields[1].poly(), x.poly()
+        c = cmp_le(lo, px, st.facts) * (cmp_le(px, hi, st.facts) if r.name.endswith("RangeInclusive") else cmp_lt(px, hi, st.facts))
+        return [(st, BoolV(st.facts.simplify(c)))]
+
     def s_range_new(self, ctx, st):
         """core::ops::range::RangeInclusive::new"""
         return [(st, Agg("adt", "core::ops::range::RangeInclusive", 0, [ctx.args[0], ctx.args[1], BoolV(ZERO)], ctx.dest_ty))]
@@ -797,7 +819,11 @@ class Summaries:
             z = self.zip_next(ctx, st, itv)
             if z is not None:
                 return z
-        res = ex.abstract_call(st, ctx.fr, ctx.callee, ctx.r, ctx.args, ctx.dest_ty, ctx.span)
+        # a chunk iterator whose progress is tracked below is updated field by field, not havoced as a whole
+        counted = ctx.callee["name"] == "next" and isinstance(itv, Agg) and itv.name in ("core::slice::chunks_exact", "core::slice::chunks_exact_mut") \
+            and len(itv.fields) >= 3 and isinstance(itv.fields[0], Ptr) and isinstance(itv.fields[1], IntV) and isinstance(ctx.args[0], Ptr) \
+            and self.ptr_len(ctx, st, itv.fields[0]) is not None
+        res = ex.abstract_call(st, ctx.fr, ctx.callee, ctx.r, ctx.args, ctx.dest_ty, ctx.span, pure=counted)
         if ctx.callee["name"] == "next" and isinstance(itv, Agg) and (itv.name or "").startswith("core::ops::range::Range") \
                 and len(itv.fields) >= 2 and isinstance(itv.fields[0], IntV) and isinstance(itv.fields[1], IntV) and isinstance(ctx.args[0], Ptr):
             # core::ops::Range / RangeInclusive over integers, modelled exactly: the event is kept (loop rules
@@ -827,6 +853,27 @@ class Summaries:
                     st2.facts.add_conditional(some, item.poly() - lo.poly())
                     st2.facts.add_conditional(some, lo.poly() - item.poly())
                     st2.facts.add_conditional(some, (hi.poly() if incl else hi.poly() - 1) - item.poly())
+            return res
+        if ctx.callee["name"] == "next" and isinstance(itv, Agg) and itv.name in ("core::slice::chunks_exact", "core::slice::chunks_exact_mut") \
+                and len(itv.fields) >= 2 and isinstance(itv.fields[0], Ptr) and isinstance(itv.fields[1], IntV) and isinstance(ctx.args[0], Ptr):
+            # chunks_exact(n) of a slice of symbolic length: it yields exactly floor(len / n) chunks. The event is kept;
+            # the number of chunks handed out so far is tracked in a trailing field.
+            st2, ret = res[0]
+            ln = self.ptr_len(ctx, st2, itv.fields[0])
+            if ln is not None and isinstance(ret, SymV):
+                total = ex.binop(st2, ctx.fr, "Div", IntV(ex.pbits, False, p=ln), IntV(ex.pbits, False, p=itv.fields[1].poly()))
+                used = itv.fields[2].poly() if len(itv.fields) > 2 and isinstance(itv.fields[2], IntV) else ZERO
+                # (a ChunksExact never hands out more than floor(len / n) chunks: true of the iterator whatever the program does)
+                st2.facts.add_fact_ge0(total.poly() - used)
+                more = cmp_lt(used, total.poly(), st2.facts)
+                p = ctx.args[0]
+                if counted:
+                    ex.write(st2, p.root, tuple(p.path) + (("f", 2, None),), IntV(ex.pbits, False, p=used + more), None)
+                else:
+                    g = list(itv.fields[:2]) + [IntV(ex.pbits, False, p=used + more)]
+                    ex.write(st2, p.root, p.path, Agg(itv.kind, itv.name, itv.variant, g, itv.ty, itv.extra), p.pty)
+                some = ex.variant_cond(ret, 1)
+                st2.facts.assume(some * more + (ONE - some) * (ONE - more), 1)
             return res
         if ctx.callee["name"] == "next" and isinstance(itv, Agg) and itv.name == "core::iter::filter" and len(itv.fields) == 2:
             # core::iter::Filter: every item it yields satisfies the predicate
